@@ -6,7 +6,7 @@
 (* -1, and steps of the wrong kind, to depth D.  Expected outcome =        *)
 (* JsonValue!Lookup on JsonText!Denote(text).                              *)
 (***************************************************************************)
-EXTENDS Gen_Values, JsonValue
+EXTENDS Gen_Values, SkipScan
 CONSTANTS D
 VARIABLES path
 
@@ -34,5 +34,7 @@ NextOD == UNCHANGED <<tree, layout, path>>
 
 CaseOD == LET x == Text r == ParseText(x) lk == Lookup(r.v, path) IN
   [t |-> x, ok |-> r.ok, path |-> path, found |-> lk.found, v |-> lk.v, layout |-> layout]
+\* design level: the scanner model (spec/SkipScan.tla) agrees with Lookup on every generated case and reads nothing outside the text
+ODEquiv == Equiv(Text, path) /\ InBounds(Text, path)
 EmitOD == CSVWrite("%1$s", <<ToJson(CaseOD)>>, IOEnv.OUT)
 =============================================================================
